@@ -185,7 +185,7 @@ func runC12(c *Ctx) {
 		// the recorded value is the configuration that was made live
 		okVal := false
 		for _, cs := range callsIn(fn, false, named("SetRouter")) {
-			if u, ok := cs.Instr.Common().Args[0].(*ssa.UnOp); ok && u.X == ssa.Value(fn.Params[1]) {
+			if u, ok := cs.Instr.Common().Args[0].(*ssa.UnOp); ok && sameParam(u.X, fn.Params[1]) {
 				okVal = true
 			}
 		}
@@ -227,7 +227,7 @@ func runC12(c *Ctx) {
 		// the value recorded / refreshed is the one stored
 		okVal := false
 		for _, cs := range callsIn(fn, false, named("SetClusterConfig")) {
-			if cs.Instr.Common().Args[0] == ssa.Value(fn.Params[1]) || sameThroughSpill(cs.Instr.Common().Args[0], fn.Params[1]) {
+			if sameParam(cs.Instr.Common().Args[0], fn.Params[1]) || sameThroughSpill(cs.Instr.Common().Args[0], fn.Params[1]) {
 				okVal = true
 			}
 		}
